@@ -125,6 +125,11 @@ Check (C08_closed_reaches_live :
   forall p ch', nth_error (r_ch (d_s d')) p = Some ch' ->
     exists ch, nth_error (r_ch (d_s d)) p = Some ch /\
                ch' = if is_dead d (N.of_nat p) then ch else send_one (r_cap (d_s d)) c (IClosed c) ch).
+Check (C08_established_closed_paired :
+  forall l nproto cap p ch,
+  nth_error (r_ch (d_s (dfinal (dinit nproto cap) l))) p = Some ch ->
+  is_dead (dfinal (dinit nproto cap) l) (N.of_nat p) = false ->
+  filter is_conn_item (racc ch) = conn_reports l (drun (dinit nproto cap) l)).
 Check (C08_no_connection_given_up :
   forall d o, d_gone d = [] -> d_gone (fst (dstep d o)) = []).
 Check (C08_established_before_fix_refuted :
